@@ -180,6 +180,9 @@ class MuxSocketTransportSink(ClientMessageSink):
       **kwargs)
 
   def _OpenImpl(self):
+    if not self.isActive:
+      # Close() was invoked before the open got to run, don't connect.
+      raise ClientError(self._CLOSE_INVOKED)
     try:
       self._log.debug('Opening transport.')
       self._socket.open()
